@@ -183,6 +183,51 @@ def ruleAnswer : Option AnyRule → String
   | some (.sender r) => "ok sender " ++ textTok r.ruleId
   | some (.underride r) => "ok underride " ++ textTok r.ruleId
 
+def scalarTok : Scalar → String
+  | .null => "n"
+  | .bool b => String.singleton (tf b)
+  | .int i => "i" ++ toString i
+  | .str s => textTok s
+
+def fvalTok : FVal → String
+  | .null => "n"
+  | .bool b => String.singleton (tf b)
+  | .int i => "i" ++ toString i
+  | .str s => textTok s
+  | .arr xs => " ".intercalate (("a" ++ toString xs.length) :: xs.map scalarTok)
+  | .emptyObj => "o0"
+
+/-- How the spec side writes the property that `lookup` found: a leaf value; an array is written as
+its scalar elements (null, booleans, canonical integers, strings). -/
+def specScalar? : PJ → Option Scalar
+  | .null => some .null
+  | .bool b => some (.bool b)
+  | .int i => if Spec.Push.canonicalInt i then some (.int i) else none
+  | .str s => some (.str s)
+  | _ => none
+
+def specLeafTok : PJ → String
+  | .null => "n"
+  | .bool b => String.singleton (tf b)
+  | .int i => "i" ++ toString i
+  | .str s => textTok s
+  | .arr xs => let ys := xs.filterMap specScalar?
+    " ".intercalate (("a" ++ toString ys.length) :: ys.map scalarTok)
+  | .obj _ => "o0"
+  | .float => "x"
+
+def parseEventPath (rest : List String) : Option (PJ × Text) := do
+  let (ev, r1) ← parseVal rest
+  match r1 with
+  | [p] => pure (← toPJ ev, ← parseText p)
+  | _ => none
+
+def parseCond (rest : List String) : Option (Cond × Ctx × PJ) := do
+  let (c, r1) ← parseVal rest
+  let (ctx, r2) ← parseVal r1
+  let ev ← parseOne r2
+  pure (← jCond c, ← jCtx ctx, ← toPJ ev)
+
 def parseMatch (rest : List String) : Option (Ruleset × Ctx × PJ) := do
   let (rs, r1) ← parseVal rest
   let (ctx, r2) ← parseVal r1
@@ -191,6 +236,40 @@ def parseMatch (rest : List String) : Option (Ruleset × Ctx × PJ) := do
 
 def handle (toks : List String) : String :=
   match toks with
+  | "c12.get" :: rest =>
+    match parseEventPath rest with
+    | some (ev, path) =>
+      match (flatten ev).get path with
+      | some v => "ok " ++ fvalTok v
+      | none => "none"
+    | none => "bad-op"
+  | "c12.spec.get" :: rest =>
+    match parseEventPath rest with
+    | some (ev, path) =>
+      match Spec.Push.lookup ev path with
+      | some v => "ok " ++ specLeafTok v
+      | none => "none"
+    | none => "bad-op"
+  | "c12.mentions" :: rest =>
+    match (parseOne rest).bind toPJ with
+    | some ev => String.singleton (tf (containsMentions (flatten ev)))
+    | none => "bad-op"
+  | "c12.spec.mentions" :: rest =>
+    match (parseOne rest).bind toPJ with
+    | some ev => String.singleton (tf (Spec.Push.hasMentions ev))
+    | none => "bad-op"
+  | "c12.cond" :: rest =>
+    match parseCond rest with
+    | some (c, ctx, ev) =>
+      match c.applies E (flatten ev) ctx with
+      | .ok b => String.singleton (tf b)
+      | .error _ => "panic"
+    | none => "bad-op"
+  | "c12.spec.cond" :: rest =>
+    match parseCond rest with
+    | some (c, ctx, ev) =>
+      String.singleton (tf (!Spec.Push.sentBySelf ev ctx && Spec.Push.condHolds P ev ctx c))
+    | none => "bad-op"
   | ["c12.count", is, n] =>
     match parseText is, parseNatTok n with
     | some is, some n => optAnswer (memberCountStr is n)
